@@ -115,6 +115,10 @@ def build_node(rec, r, w, depth, maxdepth, uniq, counters, rd=None):
             P["suit-parameter-image-digest"] = {"suit-digest-algorithm-id": alg, "suit-digest-bytes": {"file": ref}}
         elif form == "file_direct":
             dg = envmodel.H(R.HASH_ALG[alg], data)
+            if r.random() < 0.2:
+                # the file holds what `sha256sum` / `openssl dgst -hex` print: read directly means copied as it is
+                dg = dg.hex().encode() + r.choice([b"", b"\n", b"  fw.bin\n"])
+                counters.add("file_direct-digest-file-holds-hex-text")
             dref = w.add(name + ".digest", dg, absolute=r.random() < 0.3)
             P["suit-parameter-image-digest"] = {"suit-digest-algorithm-id": alg, "suit-digest-bytes": {"file_direct": dref}}
         else:
